@@ -1,18 +1,26 @@
 #!/bin/bash
 # usage: tools/mutant.sh <patch-file> <property> [<property>...]
-# Applies the patch to /repo, optionally runs the pinned suite, runs the quick checks, reverts.
+# Applies the patch to a fresh scratch worktree of /repo (never to /repo itself), optionally
+# runs the pinned suite there (SUITE=1), runs the quick checks against it through VERIF_REPO,
+# and removes the worktree. Evidence/replay files go to a scratch VERIF_DIR copy so that the
+# committed evidence is not overwritten.
 set -u
 patch=$(realpath "$1"); shift
-cd /repo || exit 2
-if [ -n "$(git status --porcelain)" ]; then echo "repo dirty, refusing"; exit 2; fi
-git apply "$patch" || { echo "patch does not apply"; exit 2; }
-trap 'git -C /repo checkout -- . ; git -C /repo clean -fdq' EXIT
+export GOFLAGS=-mod=mod GOPROXY=off GOSUMDB=off
+wt=$(mktemp -d /tmp/mut-XXXXXX)
+rmdir $wt
+git -C /repo worktree add -q --detach $wt HEAD || exit 2
+out=$(mktemp -d /tmp/mutout-XXXXXX)
+trap 'git -C /repo worktree remove --force '$wt' >/dev/null 2>&1; rm -rf '$out EXIT
+( cd $wt && git apply "$patch" ) || { echo "patch does not apply"; exit 2; }
 if [ "${SUITE:-0}" = 1 ]; then
-  if go test -mod=mod -vet=off -count=1 ./... >/tmp/mutant-suite.log 2>&1; then echo "suite: PASS"; else echo "suite: FAIL"; grep -E '^(---|FAIL)' /tmp/mutant-suite.log | head -5; fi
+  if ( cd $wt && go test -vet=off -count=1 ./... >$out/suite.log 2>&1 ); then echo "suite: PASS"; else echo "suite: FAIL"; grep -E '^(---|FAIL)' $out/suite.log | head -5; fi
 fi
-cd /verif
+mkdir -p $out/verif/evidence $out/verif/replays
+cp /verif/known_findings.json $out/verif/
+ln -s /verif/sim $out/verif/sim
 for p in "$@"; do
-  out=$(VERIF_NO_FRESH_REPLAY=${FRESH:-1} ./bin/verif check "$p" 2>&1); rc=$?
-  echo "[$p] exit=$rc $(echo "$out" | grep -c '^VIOLATION') violation line(s)"
-  echo "$out" | grep -E '^  C' | cut -c1-300 | awk '{k=$1; c[k]++; if (c[k]<=1) print}' | head -6
+  res=$(VERIF_REPO=$wt VERIF_DIR=$out/verif VERIF_NO_FRESH_REPLAY=${FRESH:-1} timeout ${TMO:-900} /verif/bin/verif check "$p" 2>&1); rc=$?
+  echo "[$p] exit=$rc $(echo "$res" | grep -c '^VIOLATION') violation line(s)"
+  echo "$res" | grep -E '^  C|^TROUBLE|^worker' | cut -c1-300 | awk '{k=$1; c[k]++; if (c[k]<=1) print}' | head -6
 done
